@@ -64,24 +64,28 @@ def raw_cases():
             d["finding"] = finding
         return d
     return [
-        c("addr-of-const-into-mutable-ptr", "    const int k = 1;\n    int* p = &k;\n    *p = 9;\n    println(k);", "error", finding="const_addr_mutable"),
+        c("addr-of-const-into-mutable-ptr", "    const int k = 1;\n    int* p = &k;\n    *p = 9;\n    println(k);", "error"),
         c("store-through-ptr-to-const", "    int d = 3;\n    const int* p = &d;\n    *p = 9;\n    println(d);", "error", ""),
         c("store-through-ptr-to-const-of-const", "    const int k = 1;\n    const int* p = &k;\n    *p = 9;\n    println(k);", "error", ""),
         c("reseat-const-pointer", "    int d = 3;\n    int e = 4;\n    int* const p = &d;\n    p = &e;\n    println(*p);", "error", ""),
         c("read-through-ptr-to-const", "    const int k = 7;\n    const int* p = &k;\n    println(*p);", "ok", "7\nEND\n"),
         c("write-through-const-pointer", "    int d = 3;\n    int* const p = &d;\n    *p = 8;\n    println(d);", "ok", "8\nEND\n"),
         c("reseat-ptr-to-const", "    int d = 3;\n    int e = 4;\n    const int* p = &d;\n    p = &e;\n    println(*p);", "ok", "4\nEND\n"),
-        c("const-via-reference-param", "    const int k = 1;\n    bump(k);\n    println(k);", "error", finding="const_via_reference",
+        c("const-via-reference-param", "    const int k = 1;\n    bump(k);\n    println(k);", "error",
           pre="void bump(int& r) { r = r + 1; }\n"),
-        c("const-struct-via-pointer", "    const P s = {1, 2};\n    P* p = &s;\n    p->x = 5;\n    println(s.x);", "error", finding="const_addr_mutable"),
+        c("const-struct-via-pointer", "    const P s = {1, 2};\n    P* p = &s;\n    p->x = 5;\n    println(s.x);", "error"),
         c("ptr-to-const-struct-member", "    P s = {1, 2};\n    const P* p = &s;\n    p->x = 5;\n    println(s.x);", "error", "",
-          finding="ptr_to_const_struct_member"),
-        c("const-double-array-elem", "    const double[3] a = [1.5, 2.5, 3.5];\n    a[1] = 9.5;\n    println(a[1]);", "error", "", finding="const_float_array_elem"),
-        c("ptr-to-const-index-store", "    int[3] d = [1, 2, 3];\n    const int* p = &d[0];\n    p[1] = 9;\n    println(d[1]);", "error", "", finding="ptr_to_const_index_store"),
-        c("const-union-reassign", "    const U u = 5;\n    u = 7;\n    println(u);", "error", "", finding="const_union_reassign", pre="typedef U = int | string;\n"),
-        c("const-struct-from-call", "    const P p = mk();\n    p.y = 5;\n    println(p.y);", "error", "", finding="const_struct_from_call_member",
+          ),
+        c("const-double-array-elem", "    const double[3] a = [1.5, 2.5, 3.5];\n    a[1] = 9.5;\n    println(a[1]);", "error", ""),
+        c("ptr-to-const-index-store", "    int[3] d = [1, 2, 3];\n    const int* p = &d[0];\n    p[1] = 9;\n    println(d[1]);", "error", ""),
+        c("const-union-reassign", "    const U u = 5;\n    u = 7;\n    println(u);", "error", "", pre="typedef U = int | string;\n"),
+        c("const-struct-from-call", "    const P p = mk();\n    p.y = 5;\n    println(p.y);", "error", "",
           pre="P mk() { P p; p.x = 1; p.y = 2; return p; }\n"),
-        c("ptr-to-const-param-deref", "    int d = 3;\n    f(&d);\n    println(d);", "error", "", finding="const_ptr_param_deref", pre="void f(const int* q) { *q = 9; }\n"),
+        c("ptr-to-const-param-deref", "    int d = 3;\n    f(&d);\n    println(d);", "error", "", pre="void f(const int* q) { *q = 9; }\n"),
+        c("const-struct-via-ptr-param", "    const P s = {1, 2};\n    f(&s);\n    println(s.x);", "error", "", finding="const_struct_via_ptr_param",
+          pre="void f(P* q) { q->x = 9; }\n"),
+        c("const-ptr-param-via-function-pointer", "    int d = 3;\n    void* g = &f;\n    g(&d);\n    println(d);", "error", "",
+          finding="const_qualifier_lost_via_function_pointer", pre="void f(const int* q) { *q = 9; }\n"),
         c("const-float", "    const float x = 1.5;\n    x = 2.5;\n    println(x);", "error", ""),
         c("const-string", "    const string s = \"a\";\n    s = \"b\";\n    println(s);", "error", ""),
         c("const-struct-whole-assign", "    const P a = {1, 2};\n    P b = {3, 4};\n    a = b;\n    println(a.x);", "error", ""),
